@@ -499,6 +499,39 @@ theorem v1_drop_terminates (cap : Nat) (ops : List (Op1c M O)) (i : Nat)
     ∃ n, (V1c.tasks n ((V1c.init M O cap).run ops) i).taskDone i = true :=
   V1c.terminates _ (V1c.inv_run cap ops) hc i hi
 
+/-! ## the default port's two-step `send` (other threads between `receiver_count()` and `tx.send`) -/
+
+/-- (linearizable) Whatever happens between a publisher's `receiver_count() > 0` check and its
+`tx.send` — subscriptions, forwarding tasks ending, other publishers (the port itself cannot
+be dropped while a publisher borrows it) — the port reached is one reached by an ATOMIC run in
+which each publication takes effect at its check (if it saw no receiver: dropped there) or at
+its store (otherwise). Hence every v1 theorem above holds with publishers on other threads. -/
+theorem v1_send_two_step_linearizable (cap : Nat) (ops : List (Op1t M O)) :
+    ∃ ops', ((V1t.init M O cap).run ops).base = (V1c.init M O cap).run ops' :=
+  V1t.run_base _ ops
+
+/-- what the check does: nothing on a closed port; parks the publisher iff it saw a receiver;
+otherwise the publication is recorded as dropped at once and the ring is untouched -/
+theorem v1_send_check (st : V1t M O) (m : M) :
+    (st.base.closed = true ∧ st.step (.pubCheck m) = st) ∨
+    (st.base.closed = false ∧ st.base.base.hasReceiver = true ∧
+        (st.step (.pubCheck m)).base = st.base ∧ (st.step (.pubCheck m)).pending = st.pending ++ [m]) ∨
+    (st.base.closed = false ∧ st.base.base.hasReceiver = false ∧
+        (st.step (.pubCheck m)).base = st.base.step (.op (.publish m)) ∧
+        (st.step (.pubCheck m)).pending = st.pending ∧
+        (st.step (.pubCheck m)).base.base.log = st.base.base.log) :=
+  V1t.pubCheck_cases st m
+
+/-- a publisher sees a receiver, the only forwarding task then finds its subscriber dead and
+ends, then the publisher stores: nothing is stored (`tx.send` fails), the publication counts as
+made at the store point -/
+def demo1t : V1t Nat Nat :=
+  (V1t.init Nat Nat 4).run
+    [.op (.op (.subscribe 7 some)), .op (.op (.publish 1)), .op (.op (.exit 7)), .pubCheck 2,
+     .op (.op (.task 0)), .pubStore 0]
+
+example : (demo1t.base.base.log, demo1t.base.base.pubs, demo1t.pending) = ([1], [1, 2], []) := by decide
+
 /-! ## non-vacuity: concrete runs -/
 
 /-- v2: two subscribers, the second subscribing after message 1; a converter dropping odd
@@ -566,6 +599,8 @@ example : demo1c.base.fwds.map (fun f => (f.got, f.ended)) = [([2, 3, 4, 5], fal
 #print axioms C16.v1_ok
 #print axioms C16.v2_stopped_dropped
 #print axioms C16.v2_per_actor
+#print axioms C16.v1_send_two_step_linearizable
+#print axioms C16.v1_send_check
 #print axioms C16.v2_eventually_complete
 #print axioms C16.v1_eventually_caught_up
 #print axioms C16.v1_stopped_dropped
